@@ -10,8 +10,10 @@
    directory exactly as run_job does; jobs_disjoint derives `disjoint` from distinct molecule names.
    PARTIAL: how a thread / process pool orders completions and whether a file write is atomic is the runtime's; the
    theorems quantify over every completion order and over every per-molecule prefix of whole-file writes.  A file that
-   a crash left truncated is "present" for os.path.isfile and is therefore kept: that is outside a model of whole-file
-   writes (see `consistent`, which is exactly the hypothesis that present files are complete files). *)
+   a crash left truncated is "present" for os.path.isfile and is therefore kept like any other existing file
+   (resume_preserves): whether its content is a complete pickle is outside a model of whole-file writes.
+   Since repair e0cef96 (a recomputed all_iters molecule writes only its missing level files) resume_preserves holds
+   for EVERY existing file and crash_then_resume needs no hypothesis on the content of the files that exist. *)
 From Coq Require Import Permutation.
 From E3FP Require Import Base.Prelude Model.Fprint Model.Pipeline Model.Batch Gen.PipelineFacts.
 From E3FP Require Import Proofs.PipelineFs Proofs.Batch Proofs.BatchRun Proofs.BatchTie.
@@ -76,6 +78,7 @@ Theorem worker_is_entry_point :
          (fs : fsmap content) (m : mol conformer) (a : fargs opts),
     fp_init (a_opts a) (normal_bits (a_bits a)) (normal_level (a_level a)) = Ok tt ->
     (a_save a = true -> a_out_dir_base a <> None) ->
+    level_ok (cfg_of opts a) ->
     let out := fprints_dict_from_mol conformer opts fprint fp_init content pickle fs m a in
     let r := mol_step content pickle (cfg_of opts a) fs (effective_name conformer m) (loop_of conformer opts fprint m a) in
     o_fs out = snd r /\
@@ -115,26 +118,21 @@ Theorem files_schedule_independent :
 Proof. exact files_schedule_independent. Qed.
 Print Assumptions files_schedule_independent.
 
-(* no-overwrite run: the files of a molecule that has all of them keep their content and are not written at all *)
+(* no-overwrite run: EVERY file that exists before the run keeps its content and is not written at all - whatever the
+   inputs (no premise: also for a half-written all_iters molecule, for shared names, for failing inputs) *)
 Theorem resume_preserves :
-  forall (content : Type) (fs : fsmap content) (js : list (job content)) (j : job content),
-    disjoint content js -> (forall j0, In j0 js -> wf_job content j0) -> In j js -> all_exist content fs j ->
-    agree content (j_files j) (run_jobs false fs js) fs /\
-    (forall p, In p (j_files j) -> ~ In p (run_log false fs js)).
-Proof.
-  exact (fun content fs js j Hd Hwf Hin Hex =>
-           conj (resume_preserves_content content fs js j Hd Hwf Hin Hex)
-                (fun p Hp => resume_preserves_written content fs js j p Hd Hwf Hin Hex Hp)).
-Qed.
+  forall (content : Type) (js : list (job content)) (fs : fsmap content) (p : path),
+    fs_isfile fs p = true ->
+    fs_lookup (run_jobs false fs js) p = fs_lookup fs p /\ ~ In p (run_log false fs js).
+Proof. exact resume_preserves. Qed.
 Print Assumptions resume_preserves.
 
-(* whatever is written belongs to a molecule that lacked at least one of its files; other paths are never touched *)
-Theorem resume_writes_only_incomplete :
+(* whatever a no-overwrite run writes was missing before the run *)
+Theorem resume_writes_only_missing :
   forall (content : Type) (js : list (job content)) (fs : fsmap content) (p : path),
-    disjoint content js -> (forall j, In j js -> wf_job content j) -> In p (run_log false fs js) ->
-    exists j, In j js /\ In p (j_files j) /\ job_skips false fs j = false.
-Proof. exact resume_preserves_log. Qed.
-Print Assumptions resume_writes_only_incomplete.
+    In p (run_log false fs js) -> fs_isfile fs p = false.
+Proof. exact resume_writes_only_missing. Qed.
+Print Assumptions resume_writes_only_missing.
 
 Theorem resume_completes :
   forall (content : Type) (ow : bool) (fs : fsmap content) (js : list (job content)) (j : job content),
@@ -155,8 +153,7 @@ Print Assumptions overwrite_regenerates.
 Theorem crash_then_resume :
   forall (content : Type) (fs : fsmap content) (jks : list (job content * nat)) (js' : list (job content)) (p : path),
     let js := jobs_of content jks in
-    disjoint content js -> (forall j, In j js -> wf_job content j) -> (forall j, In j js -> all_or_nothing content j) ->
-    consistent content fs js -> Permutation js js' ->
+    disjoint content js -> (forall j, In j js -> wf_job content j) -> Permutation js js' ->
     fs_lookup (run_jobs false (run_partial false fs jks) js') p = fs_lookup (run_jobs false fs js) p.
 Proof. exact crash_then_resume. Qed.
 Print Assumptions crash_then_resume.
@@ -164,36 +161,37 @@ Print Assumptions crash_then_resume.
 (* for EVERY prefix k of the write sequence of a serial run *)
 Theorem crash_then_resume_serial :
   forall (content : Type) (fs : fsmap content) (js js' : list (job content)) (k : nat) (p : path),
-    disjoint content js -> (forall j, In j js -> wf_job content j) -> (forall j, In j js -> all_or_nothing content j) ->
-    consistent content fs js -> Permutation js js' ->
+    disjoint content js -> (forall j, In j js -> wf_job content j) -> Permutation js js' ->
     fs_lookup (run_jobs false (run_interrupted false fs js k) js') p = fs_lookup (run_jobs false fs js) p.
 Proof. exact crash_then_resume_serial. Qed.
 Print Assumptions crash_then_resume_serial.
 
-(* all_iters: a molecule interrupted half-way through its level files is recomputed and ALL its files are rewritten *)
-Theorem partial_molecule_rewritten :
-  forall (content : Type) (fs : fsmap content) (j : job content) (p : path),
-    In p (j_files j) -> fs_isfile fs p = false -> job_log false fs j = map fst (j_plan j).
-Proof. exact partial_molecule_rewritten. Qed.
-Print Assumptions partial_molecule_rewritten.
+(* all_iters: a molecule interrupted half-way through its level files is recomputed; its missing files are written,
+   its existing ones are neither changed nor written (repair e0cef96; before it all of them were rewritten) *)
+Theorem partial_molecule_completed :
+  forall (content : Type) (fs : fsmap content) (j : job content) (p : path) (c : content),
+    wf_job content j -> In (p, c) (j_plan j) -> fs_isfile fs p = false ->
+    fs_lookup (run_job false fs j) p = Some c /\ In p (job_log false fs j) /\
+    (forall q, fs_isfile fs q = true -> fs_lookup (run_job false fs j) q = fs_lookup fs q /\ ~ In q (job_log false fs j)).
+Proof. exact partial_molecule_completed. Qed.
+Print Assumptions partial_molecule_completed.
 
-(* ... so an existing level file of such a molecule is NOT left untouched (it is replaced, by the same content if it
-   came from the same inputs: crash_then_resume; by new content otherwise) *)
-Theorem partial_molecule_existing_file_replaced :
+Theorem partial_molecule_existing_file_untouched :
   let fs := [(pb, 99)] in
-  fs_lookup fs pb = Some 99 /\ fs_lookup (run_job false fs two_level_job) pb = Some 2 /\
-  job_log false fs two_level_job = [pa; pb].
-Proof. exact partial_molecule_existing_file_replaced. Qed.
-Print Assumptions partial_molecule_existing_file_replaced.
+  fs_lookup (run_job false fs two_level_job) pb = Some 99 /\ fs_lookup (run_job false fs two_level_job) pa = Some 1 /\
+  job_log false fs two_level_job = [pa].
+Proof. exact partial_molecule_existing_file_untouched. Qed.
+Print Assumptions partial_molecule_existing_file_untouched.
 
-(* why crash_then_resume needs `consistent`, and why everything needs `disjoint` *)
-Theorem crash_with_stale_file_refuted :
+(* a stale existing file survives an interrupted-and-resumed run exactly as it survives an uninterrupted one *)
+Theorem crash_with_stale_file_kept :
   let fs := [(pb, 99)] in
   fs_lookup (run_jobs false (run_partial false fs [(two_level_job, 1%nat)]) [two_level_job]) pb = Some 99 /\
-  fs_lookup (run_jobs false fs [two_level_job]) pb = Some 2.
-Proof. exact crash_with_stale_file_refuted. Qed.
-Print Assumptions crash_with_stale_file_refuted.
+  fs_lookup (run_jobs false fs [two_level_job]) pb = Some 99.
+Proof. exact crash_with_stale_file_kept. Qed.
+Print Assumptions crash_with_stale_file_kept.
 
+(* why the schedule-independence and crash theorems need `disjoint` (distinct molecule names) *)
 Theorem shared_path_schedule_dependent :
   let j1 : job Z := mkjob [pa] [(pa, 1)] in
   let j2 : job Z := mkjob [pa] [(pa, 2)] in
@@ -207,8 +205,6 @@ Theorem batch_crash_then_resume :
   forall (content : Type) (pickle : list fp -> content) (cfg : config) (fs : fsmap content)
          (order order' : list input) (ks : list nat) (db db' : bool) (p : path),
     c_overwrite cfg = false -> level_ok cfg -> NoDup (saved_names order) ->
-    (forall i, In i order -> input_ok cfg i) ->
-    consistent content fs (map (worker_job content pickle cfg) order) ->
     length ks = length order -> Permutation order order' ->
     fs_lookup (snd (run content pickle cfg
                         (run_partial false fs (combine (map (worker_job content pickle cfg) order) ks)) order' db')) p
@@ -219,9 +215,7 @@ Print Assumptions batch_crash_then_resume.
 Theorem batch_crash_then_resume_serial :
   forall (content : Type) (pickle : list fp -> content) (cfg : config) (fs : fsmap content)
          (order order' : list input) (k : nat) (db db' : bool) (p : path),
-    c_overwrite cfg = false -> level_ok cfg -> NoDup (saved_names order) ->
-    (forall i, In i order -> input_ok cfg i) ->
-    consistent content fs (map (worker_job content pickle cfg) order) -> Permutation order order' ->
+    c_overwrite cfg = false -> level_ok cfg -> NoDup (saved_names order) -> Permutation order order' ->
     fs_lookup (snd (run content pickle cfg (run_interrupted false fs (map (worker_job content pickle cfg) order) k) order' db')) p
     = fs_lookup (snd (run content pickle cfg fs order db)) p.
 Proof. exact batch_crash_then_resume_serial. Qed.
@@ -229,12 +223,10 @@ Print Assumptions batch_crash_then_resume_serial.
 
 Theorem batch_resume_preserves :
   forall (content : Type) (pickle : list fp -> content) (cfg : config) (fs : fsmap content)
-         (order : list input) (db : bool) (i : input),
-    c_overwrite cfg = false -> level_ok cfg -> NoDup (saved_names order) -> In i order ->
-    all_exist content fs (worker_job content pickle cfg i) ->
-    forall p, In p (j_files (worker_job content pickle cfg i)) ->
-      fs_lookup (snd (run content pickle cfg fs order db)) p = fs_lookup fs p /\
-      ~ In p (run_log false fs (map (worker_job content pickle cfg) order)).
+         (order : list input) (db : bool) (p : path),
+    c_overwrite cfg = false -> fs_isfile fs p = true ->
+    fs_lookup (snd (run content pickle cfg fs order db)) p = fs_lookup fs p /\
+    ~ In p (run_log false fs (map (worker_job content pickle cfg) order)).
 Proof. exact batch_resume_preserves. Qed.
 Print Assumptions batch_resume_preserves.
 
@@ -304,10 +296,9 @@ Example hypotheses_satisfiable :
   let cfg := mkcfg 1 true (Some "o"%string) ".fp" false in
   let inputs := [Loads (Some "a"%string) (Ok [(0, [x]); (1, [x])]); Fails; Loads (Some "b"%string) (Raises EOther)] in
   level_ok cfg /\ NoDup (saved_names inputs) /\ (forall i, In i inputs -> input_ok cfg i) /\
-  consistent Z [] (map (worker_job Z (fun l => Z.of_nat (length l)) cfg) inputs) /\
   map (@j_files Z) (map (worker_job Z (fun l => Z.of_nat (length l)) cfg) inputs)
   = [[("o0", "a.fp"); ("o1", "a.fp")]; []; [("o0", "b.fp"); ("o1", "b.fp")]]%string.
 Proof.
   cbv zeta. split; [left; simpl; lia|]. split; [repeat constructor; simpl; intuition discriminate|].
-  split; [intros i [<-|[<-|[<-|[]]]]; simpl; auto|]. split; [intros j _ p c _; left; reflexivity|reflexivity].
+  split; [intros i [<-|[<-|[<-|[]]]]; simpl; auto|reflexivity].
 Qed.
